@@ -1960,8 +1960,9 @@ def run_cases(ctx, res, cases, tag, check_corr=True, sink=None):
 def flush_coq(ctx, res, sink, tag="all"):
     if not sink:
         return
-    # one wave of the (at most 8) parallel coqc: loading the libraries costs more than a few dozen cases
-    shard = ctx.n(max(60, min(160, -(-len(sink) // 8))), 150)
+    # one wave of four parallel coqc: loading the libraries costs more than a few dozen cases, and on a busy machine
+    # eight of them only get in each other's way
+    shard = ctx.n(max(60, min(320, -(-len(sink) // 4))), 150)
     results, logs = coq_results("C13", HEADER, [t for t, _, _, _ in sink], "check_any", shard=shard, tag=tag)
     res.corr_checked += len(results)
     for r, (_, case, out, what_kind) in zip(results, sink):
@@ -2009,7 +2010,9 @@ def gen_semt(rng, seed, malformed=False):
     g.source()
     grow(g, rng.choice([1, 2, 2, 3, 3, 4]))
     case = finish(g, sem=True, semt=True)
-    if len({i.get("dt") for i in g.prog if i["op"] == "source"}) > 1:
+    unlike_join = any(i["op"] == "join" and max(i["a"], i["b"]) < len(g.refs) and g.refs[i["a"]].data.dtype != g.refs[i["b"]].data.dtype
+                      for i in g.prog)
+    if len({i.get("dt") for i in g.prog if i["op"] == "source"}) > 1 or unlike_join:
         case["coqonly"] = True
     return case
 
@@ -2043,7 +2046,7 @@ def run(ctx, res):
         sw = sw + typed_sweep(sw, rng, 1) + typed_sweep(sw, rng, 1)
     run_cases(ctx, res, sw, "sweep", sink=sink)
     rng = ctx.sub_rng("programs")
-    progs = [gen_case(rng, ctx.seed * 1000 + i) for i in range(ctx.n(340, 9000))]
+    progs = [gen_case(rng, ctx.seed * 1000 + i) for i in range(ctx.n(310, 9000))]
     run_cases(ctx, res, progs, "prog", sink=sink)
     rng = ctx.sub_rng("malformed")
     bad = [gen_case(rng, ctx.seed * 1000 + i, malformed=True) for i in range(ctx.n(60, 1500))]
